@@ -189,6 +189,8 @@ func gsParamsFromPlan(p *Plan) GossipSubParams {
 	gp.PrunePeers = p.ki("prune_peers", gp.PrunePeers)
 	gp.DirectConnectTicks = uint64(p.ki("direct_ticks", 300))
 	gp.Connectors = p.ki("connectors", 2)
+	gp.MaxPendingConnections = p.ki("max_pending_conns", gp.MaxPendingConnections)
+	gp.ConnectionTimeout = time.Duration(p.ki("conn_timeout_ms", 30000)) * time.Millisecond
 	return gp
 }
 
@@ -418,6 +420,13 @@ func (w *nodeWorld) startNode(extra ...Option) error {
 		return err
 	}
 	w.n = n
+	if w.plan.kb("connect_block") {
+		// dials take until their deadline (an unreachable address): the Connect seam parks durably
+		n.h.connectHook = func(ctx context.Context, pi peer.AddrInfo) error {
+			<-ctx.Done()
+			return ctx.Err()
+		}
+	}
 	w.s.settle()
 	w.registerTopicValidators()
 	return nil
